@@ -15,7 +15,8 @@ CHECKS = {
              "no index is ever started twice on any worker (NoDup over pool ++ wires ++ inboxes ++ queues ++ popped entries), whatever starts was popped from its worker's queue and belongs to the agreed collection. "
              "For load without worker failure also (Coupling.v, Completeness.v): the controller's book of every node equals, in order, what the worker side still owes; the controller never raises; "
              "tokens are conserved (a permutation of the collected positions in every state); when the session ends as finished the started tests are a PERMUTATION of the collection: every test started exactly once. "
-             "worksteal: system-level at-most-once incl. withdrawals in flight (ExactlyOnceSteal.v). Partial: exactly-once at the end is proved for load; worksteal has at-most-once; the loadscope family has the per-operation conservation laws.",
+             "The same four theorems (book coupling, never raises, conservation, exactly-once at a finished end) for worksteal incl. withdrawals in flight (ExactlyOnceSteal.v, CouplingSteal.v, CompletenessSteal.v) and for "
+             "loadscope/loadfile/loadgroup (ScopeSystem.v, ScopeCoupling.v, ScopeCompleteness.v): the property is a theorem of the model for all five load-balancing modes, every configuration and every schedule without worker failure.",
              design="5/C01", technique=TECH),
  "C02": dict(text=SYS + "Proved (all states): each scheduling decision leaves the node with >=2 tests, a shutdown, an owed steal answer or an empty pool; tests_finished => shutdown triggered; "
              "a worker with a successor can always step. SYSTEM level for --dist load without worker failure (Progress.v, Termination.v), every configuration and schedule: no stand-off "
@@ -33,7 +34,8 @@ CHECKS = {
              "collection order, sent whole in one command to one node, re-queued whole after a crash; the worker's half (the hook writing '@group' into a marked test's id) is modelled and composed with the controller's key function (GroupMarkProofs.marked_key_is_group). SYSTEM level (ScopeSystem.v; loadscope/loadfile/loadgroup, no worker failure, every schedule): "
              "one worker per group, the group contiguous on it, in collection order, no test started twice.", design="5/C06", technique=TECH),
  "C07": dict(text="Worker side proved for all interleavings (all-or-nothing, exact reply, order kept, nothing started is withdrawn); controller side proved for all scheduler states (one request outstanding, "
-             "tail only, >=2 left, reply processing, dead victim cancels). " + SYS, design="5/C07", technique=TECH),
+             "tail only, >=2 left, reply processing, dead victim cancels). SYSTEM level (CouplingSteal.v; worksteal, no worker failure, every schedule): requests in flight for a node = 1 iff the marker names it; a request names a non-empty tail "
+             "and leaves >= 2; the victim's book = owed ++ on the way back until the reply is processed; processing a reply never fails. " + SYS, design="5/C07", technique=TECH),
  "C08": dict(text=SYS + "Proved (all states): initial node gets run-all+shutdown and is booked everything; crash keeps the remainder other than the crashed test and blocks tests_finished; an equal-spec, "
              "equal-collection replacement inherits exactly the remainder; a disagreeing one inherits nothing. SYSTEM level (EachSystem.v; no worker failure, workers may collect different lists, every schedule): "
              "every worker starts a prefix of its own collection in order, exactly the whole collection when the session ends as finished, and the controller never raises.", design="5/C08", technique=TECH),
